@@ -159,7 +159,48 @@ Definition ix_unlink (ix : index) (K t merged : Z) (reuse : bool) : index * bool
     else (ix1, reuse)
   end.
 
+(* local state of zone_free between its blocks: cells, index, whether a chunk
+   list node is kept for reuse (reuse_fl != NULL), current_tid *)
 Record fstate := mkF { f_cs : list cell; f_ix : index; f_reuse : bool; f_cur : Z }.
+
+(* zone_free, block "if (NULL != prev_segment && prev_segment->status == SEGMENT_EMPTY)" *)
+Definition free_prev (n : Z) (ix : index) (cs1 : list cell) (tid ptid ntid merged : Z) : fstate :=
+  if in_range n ptid && (c_st (cget cs1 ptid) =? EMPTY) then
+    let '(ixa, reuse) := ix_unlink ix (c_nbu (cget cs1 ptid)) ptid merged false in
+    let csa := if in_range n ntid
+               then cset cs1 ntid (with_nbp (cget cs1 ntid)
+                                            (c_nbp (cget cs1 ntid) + c_nbu (cget cs1 ptid)))
+               else cs1 in
+    let csb := cset csa ptid (with_nbu (cget csa ptid)
+                                       (c_nbu (cget csa ptid) + c_nbu (cget csa tid))) in
+    mkF csb ixa reuse ptid
+  else mkF cs1 ix false tid.
+
+(* zone_free, block "if (NULL != next_segment && next_segment->status == SEGMENT_EMPTY)" *)
+Definition free_next (n : Z) (s2 : fstate) (ntid merged : Z) : fstate :=
+  let cs2 := f_cs s2 in
+  let ctid := f_cur s2 in
+  if in_range n ntid && (c_st (cget cs2 ntid) =? EMPTY) then
+    let X := c_nbu (cget cs2 ntid) in
+    let '(ixb, reuse) := ix_unlink (f_ix s2) X ntid merged (f_reuse s2) in
+    let ntid2 := ntid + X in
+    let csc := cset cs2 ctid (with_nbu (cget cs2 ctid) (c_nbu (cget cs2 ctid) + X)) in
+    let csd := if in_range n ntid2
+               then cset csc ntid2 (with_nbp (cget csc ntid2) (c_nbu (cget csc ctid)))
+               else csc in
+    mkF csd ixb reuse ctid
+  else s2.
+
+(* zone_free, "add the merged chunk into the RB tree" *)
+Definition free_push (s3 : fstate) (merged : Z) : index :=
+  let ctid := f_cur s3 in
+  if f_reuse s3 then ix_push (f_ix s3) merged ctid
+  else
+    let M := c_nbu (cget (f_cs s3) ctid) in
+    match ix_find (f_ix s3) M with
+    | Some _ => ix_push (f_ix s3) M ctid
+    | None => ix_push (ix_insert (f_ix s3) M []) M ctid
+    end.
 
 (* zone_free(gdata, base + off) *)
 Definition zfree (z : zone) (off : Z) : zone :=
@@ -176,44 +217,9 @@ Definition zfree (z : zone) (off : Z) : zone :=
   let merged := c_nbu (cget cs1 tid)
                 + (if pfree then c_nbu (cget cs1 ptid) else 0)
                 + (if nfree then c_nbu (cget cs1 ntid) else 0) in
-  (* merge with the previous segment *)
-  let s2 :=
-    if pfree then
-      let '(ixa, reuse) := ix_unlink (z_idx z) (c_nbu (cget cs1 ptid)) ptid merged false in
-      let csa := if in_range n ntid
-                 then cset cs1 ntid (with_nbp (cget cs1 ntid)
-                                              (c_nbp (cget cs1 ntid) + c_nbu (cget cs1 ptid)))
-                 else cs1 in
-      let csb := cset csa ptid (with_nbu (cget csa ptid)
-                                         (c_nbu (cget csa ptid) + c_nbu (cget csa tid))) in
-      mkF csb ixa reuse ptid
-    else mkF cs1 (z_idx z) false tid in
-  (* merge with the next segment *)
-  let cs2 := f_cs s2 in
-  let ctid := f_cur s2 in
-  let s3 :=
-    if in_range n ntid && (c_st (cget cs2 ntid) =? EMPTY) then
-      let X := c_nbu (cget cs2 ntid) in
-      let '(ixb, reuse) := ix_unlink (f_ix s2) X ntid merged (f_reuse s2) in
-      let ntid2 := ntid + X in
-      let csc := cset cs2 ctid (with_nbu (cget cs2 ctid) (c_nbu (cget cs2 ctid) + X)) in
-      let csd := if in_range n ntid2
-                 then cset csc ntid2 (with_nbp (cget csc ntid2) (c_nbu (cget csc ctid)))
-                 else csc in
-      mkF csd ixb reuse ctid
-    else s2 in
-  (* add the merged chunk to the index *)
-  let cs3 := f_cs s3 in
-  let ix3 := f_ix s3 in
-  let ix4 :=
-    if f_reuse s3 then ix_push ix3 merged ctid
-    else
-      let M := c_nbu (cget cs3 ctid) in
-      match ix_find ix3 M with
-      | Some _ => ix_push ix3 M ctid
-      | None => ix_push (ix_insert ix3 M []) M ctid
-      end in
-  mkZone n (z_unit z) cs3 ix4.
+  let s2 := free_prev n (z_idx z) cs1 tid ptid ntid merged in
+  let s3 := free_next n s2 ntid merged in
+  mkZone n (z_unit z) (f_cs s3) (free_push s3 merged).
 
 (* the loop of zone_in_use / zone_debug: tid = 0; tid in range; tid += nb_units.
    Fuel max_segment + 1 is enough whenever every step advances (nb_units >= 1). *)
